@@ -34,14 +34,7 @@ pub enum Annotation {
 impl Annotation {
     pub fn extract(&self, annotations: &[&str]) -> anyhow::Result<Vec<BigUint>> {
         let PrefixAndKind { prefix, kinds } = self.prefix_and_kinds();
-        Ok(kinds
-            .to_strs()
-            .iter()
-            .map(|k| extract_annotations(annotations, &prefix, k))
-            .collect::<anyhow::Result<Vec<_>>>()?
-            .into_iter()
-            .flatten()
-            .collect())
+        extract_annotations(annotations, &prefix, &kinds.to_strs())
     }
 
     pub fn prefix_and_kinds(&self) -> PrefixAndKind {
